@@ -40,7 +40,10 @@ func (n *MixedValueNode) AddConstraint(c constraint.Constraint) {
 	switch t := c.(type) {
 	case *constraint.TypeConstraint:
 		n.addTypeConstraint(t)
-		n.types = []string{t.Bytes().String()}
+		// The rule type: "mixed" names no type, the types of the value stay.
+		if t.Bytes().Unquote().String() != "mixed" {
+			n.types = []string{t.Bytes().String()}
+		}
 
 	case *constraint.Or:
 		n.addOrConstraint(t)
